@@ -32,6 +32,7 @@ impl Env {
         };
         std::fs::create_dir_all(&e.root).unwrap();
         std::fs::create_dir_all(&e.ref_root).unwrap();
+        tree::set_scratch_for_hash(&e.scratch);
         e.reset_vlog();
         e
     }
